@@ -130,6 +130,10 @@ pub fn scenarios() -> Vec<(&'static str, Vec<Act>)> {
         ("no-outage", vec![ApiStart, ApiRun, Mine(true), Poll, Probe]),
         ("multi-block-poll-with-failed-download", vec![Mine(true), Mine(false), Mine(false), FailBlock(1), Poll, Probe, NodeUp, Poll, Probe]),
         ("outage-noticed-by-poll", vec![NodeDown, Poll, Probe, NodeUp, Poll, Probe, Mine(true), Poll, Probe]),
+        // the node flaps: the poll succeeds (flag restored, waiters woken) but the RPC interface is gone again when the
+        // carrier retries; the carrier must go on waiting, not give the penalty up
+        ("request-path-node-flaps", vec![NodeDown, ApiStart, ApiRun, Probe, NodeUp, RpcDownAfter(0), Poll, ApiRun, Probe, NodeUp, Poll, ApiRun, Probe]),
+        ("request-path-node-flaps-twice", vec![NodeDown, ApiStart, ApiRun, NodeUp, RpcDownAfter(0), Poll, ApiRun, NodeUp, RpcDownAfter(0), Poll, ApiRun, Probe, NodeUp, Poll, ApiRun, Probe]),
     ]
 }
 
@@ -316,6 +320,15 @@ pub fn run(_seed: u64, _thorough: bool, rep: &mut Report) {
             }
         }
         let _ = stuck_reported;
+        // "resume without losing or wrongly rejecting work": a submission whose dispute was already confirmed and that
+        // the API thread finished after the node came back must have its penalty tracked — an outage is not a verdict
+        if node_up && acts.contains(&Act::ApiStart) && api_state == "done" {
+            let db = run.live.as_mut().unwrap().sys.read_db();
+            let accepted = run.api_result.as_deref().map_or(false, |r| r.starts_with("ok"));
+            if accepted && db.trackers.is_empty() {
+                rep.fail("C12", "penalty_given_up_during_outage", &format!("scenario {name}: the submission was answered `{}` after the node came back, but no tracker exists: the penalty was dropped because of the outage", run.api_result.clone().unwrap_or_default()));
+            }
+        }
         if std::env::var("VERIF_DEBUG").is_ok() {
             let st = sched.st.lock().unwrap();
             let tr: Vec<String> = st.trace.iter().rev().take(14).map(|e| format!("{e:?}")).collect();
